@@ -257,9 +257,9 @@ def edit(rng, base, kind):
         paths = [p for ps in man.values() for p in ps]
         fx = {"md5": {hashlib.md5(base.pool.get(d, b"")).hexdigest(): list(ps) for d, ps in man.items()}}
         # a second block under one of the other algorithms rocfl can verify (correct values unless this is the edit)
-        other = rng.choice(["sha1", "blake2b-160", "blake2b-256", "blake2b-384", "blake2b-512", "sha512/256", None])
+        other = rng.choice(["sha1", "blake2b-160", "blake2b-256", "blake2b-384", "blake2b-512", "sha512/256", "sha256", "sha512", base.alg, None])
         if other:
-            hf = {"sha1": hashlib.sha1, "blake2b-512": hashlib.blake2b, "sha512/256": lambda b: hashlib.new("sha512_256", b),
+            hf = {"sha1": hashlib.sha1, "blake2b-512": hashlib.blake2b, "sha512/256": lambda b: hashlib.new("sha512_256", b), "sha256": hashlib.sha256, "sha512": hashlib.sha512,
                   "blake2b-160": lambda b: hashlib.blake2b(b, digest_size=20), "blake2b-256": lambda b: hashlib.blake2b(b, digest_size=32),
                   "blake2b-384": lambda b: hashlib.blake2b(b, digest_size=48)}[other]
             fx[other] = {hf(base.pool.get(d, b"")).hexdigest(): list(ps) for d, ps in man.items()}
